@@ -57,6 +57,22 @@ class ShardWriterNP(ShardWriterBase):
 
             values (dict[str, npt.NDArray[np.generic]]): Attribute values.
         """
+        # Variable size attributes are saved as one array of NumPy scalars per
+        # attribute. Anything else than bytes or str (e.g., an array) could
+        # not be saved together with other examples of this shard.
+        values = dict(values)
+        for attribute in self.dataset_structure.saved_data_description:
+            if not attribute.has_variable_size():
+                continue
+            value = values[attribute.name]
+            if isinstance(value, (bytearray, memoryview)):
+                value = bytes(value)
+                values[attribute.name] = value
+            if np.array(value).shape != ():
+                raise ValueError(f"Attribute {attribute.name} has a variable "
+                                 f"size and needs to be bytes or str, got "
+                                 f"{type(value)}.")
+
         # Just buffer all values.
         if not self._buffer:
             self._buffer = {
